@@ -131,7 +131,14 @@ func replayMonBehaviour(w *ndWriter, b monBehaviour) {
 		case "SD":
 			if !closed {
 				closed = true
-				mon.Close()
+				// Close() must return whatever the handler is doing; a call that does not is left behind
+				// (the history then shows what the specification does not allow)
+				ret := make(chan struct{})
+				go func() { mon.Close(); close(ret) }()
+				select {
+				case <-ret:
+				case <-time.After(2 * time.Second):
+				}
 			}
 		case "RL":
 			select {
@@ -158,9 +165,12 @@ func replayMonBehaviour(w *ndWriter, b monBehaviour) {
 	w.write2(fmt.Sprintf(`{"k":"modesmon","stim":%s,"quiet":%v,"preds":[%s],"obs":[%s]}`, jsStrs(b.Stim), quiet, strings.Join(preds, ","), strings.Join(hist, ",")))
 	// tear down: let every callback return, stop everything
 	close(h.rel)
-	mon.Close()
-	psub.Close()
-	pub.Close()
+	td := make(chan struct{})
+	go func() { mon.Close(); psub.Close(); pub.Close(); close(td) }()
+	select {
+	case <-td:
+	case <-time.After(3 * time.Second):
+	}
 	cancel()
 	select {
 	case <-mon.Done():
